@@ -3,13 +3,15 @@ from .lifebase import run_life, replay_life, NH
 
 CL = {1: "a status edge outside the life cycle", 2: "the hand count changed other than +1 on an opened hand",
       3: "a hand opened while another was unsettled", 4: "per-hand fields not reset between hands",
-      5: "a hand opened after close/release, on a break level, or before blinds were set", 6: "a game id was reused", 7: "the level in force after UpdateBlind is not the level announced"}
+      5: "a hand opened after close/release, on a break level, or before blinds were set", 6: "a game id was reused", 8: "a notification published while the table stands by still carries a hand", 7: "the level in force after UpdateBlind is not the level announced"}
 
 
 def run(res, replay=None):
     q = res.tier == "quick"
     # "late": the blinds are missing when the game starts, and a level - one time in three a break - arrives while the first open is being retried
-    plans = [("gen", None, NH[res.tier], 10 if q else 100, None), ("late", "late_level", 12 if q else 150, 6 if q else 50, None)]
+    plans = [("gen", None, NH[res.tier], 10 if q else 100, None), ("late", "late_level", 12 if q else 150, 6 if q else 50, None),
+             # the first open is refused because only one of the two players has sat in; the other sits in during the retry wait
+             ("latejoin", "late_join", 6 if q else 60, 6 if q else 30, None)]
     return run_life(res, 3, CL, replay=replay, plans=plans)
 
 
